@@ -329,8 +329,9 @@ def recNat (kind : String) (n : Nat) (pc : Float) (both zero : Bool) (inp : List
   let dim := (inp.head?.map List.length).getD 0
   let pairs := inp.length / 2
   let valid := kind != "npoint" || (decide (1 ≤ n) && decide (n < dim)) || pairs == 0
-  let mustCross := zero && pc ≥ 0.0 || pc ≥ 1.0
-  let mustNot := !mustCross && pc ≤ 0.0
+  -- the all-zero generator draws u = 0.0 for every pair: the model's gate decides
+  let mustCross := pc ≥ 1.0 || (zero && crossedBy 0.0 pc)
+  let mustNot := pc ≤ 0.0 || (zero && !crossedBy 0.0 pc)
   let modelAccept : List Nat → List Nat → List Nat → Option (List Nat) → Bool := fun p1 p2 c1 c2 =>
     match kind with
     | "npoint" =>
@@ -366,8 +367,9 @@ def recNat (kind : String) (n : Nat) (pc : Float) (both zero : Bool) (inp : List
 def aeq (x y : Float) : Bool := (x - y).abs ≤ 1e-9 * (1 + max x.abs y.abs)
 
 def recArith (pc : Float) (both zero : Bool) (inp : List (List Float)) (impl : Impl (List Float)) : Verdict :=
-  let mustCross := zero && pc ≥ 0.0 || pc ≥ 1.0
-  let mustNot := !mustCross && pc ≤ 0.0
+  -- the all-zero generator draws u = 0.0 for every pair: the model's gate decides
+  let mustCross := pc ≥ 1.0 || (zero && crossedBy 0.0 pc)
+  let mustNot := pc ≤ 0.0 || (zero && !crossedBy 0.0 pc)
   let beq : BEq (List Float) := ⟨bitsEq⟩
   let modelAccept : List Float → List Float → List Float → Option (List Float) → Bool := fun p1 p2 c1 c2 =>
     let alphas := (c1.zip (p1.zip p2)).map fun (c, a, b) => if a == b then 0.5 else (c - b) / (a - b)
